@@ -1,6 +1,7 @@
 SPECIFICATION SSpec
 CONSTANT L = 9
 CONSTANT Kind = "NS"
+CONSTANT LOBound = "asis"
 CONSTANT Depth = 13
 CONSTRAINT Emit
 CONSTRAINT Stop
